@@ -273,10 +273,10 @@ theorem intact (h0 : Started c0) (hi : InitScreenOnly c0) (hP : ScreenOnly P) (h
   let e : Entry := ⟨c.A.nextEid, scr, args, true⟩
   let q := c.L.queues.length
   let K : List Instr := .modalRet e :: K0
-  have hc' : c'.code = .newLoop s :: K := by show c'.sv.code = _; rw [hsv']
-  have hlev' : c'.L.levels = c.L.levels := by show c'.sv.levels = _; rw [hsv']
-  have hnq' : c'.L.queues.length = c.L.queues.length := by show c'.sv.nq = _; rw [hsv']
-  have hst' : c'.A.stack = c.A.stack ++ [e] := by show c'.sv.stack = _; rw [hsv']
+  have hc' : c'.code = .newLoop s :: K := by show c'.sv.code = _; rw [hsv']; rfl
+  have hlev' : c'.L.levels = c.L.levels := by show c'.sv.levels = _; rw [hsv']; rfl
+  have hnq' : c'.L.queues.length = c.L.queues.length := by show c'.sv.nq = _; rw [hsv']; rfl
+  have hst' : c'.A.stack = c.A.stack ++ [e] := by show c'.sv.stack = _; rw [hsv']; rfl
   have hr' : Reach P c0 c' := .step hr hs1
   have hr1 : Reach P c0 c1 := .step hr' hs2
   have hr02 : Reach P c0 c2 := reach_reach hr1 hr2
@@ -301,7 +301,7 @@ theorem intact (h0 : Started c0) (hi : InitScreenOnly c0) (hP : ScreenOnly P) (h
   have hq1 : q ∈ c1.L.levels := by
     show q ∈ c1.sv.levels; rw [hsv1]
     show q ∈ c'.L.levels ++ [c'.L.queues.length]
-    rw [hnq']; simp
+    rw [hnq']; exact List.mem_append_right _ (List.mem_cons_self ..)
   have hnq1 : q < c1.sv.nq := by
     rw [hsv1]; show q < c'.L.queues.length + 1; rw [hnq']; exact Nat.lt_succ_self _
   -- the situation at the call
@@ -324,7 +324,7 @@ theorem intact (h0 : Started c0) (hi : InitScreenOnly c0) (hP : ScreenOnly P) (h
         (∀ t1 t0, newTr c1 cx = t1 ++ Tr.closeLevel q :: t0 → ∀ w st, Tr.stackOp w st ∉ t1) → IntactHyps cx →
         Intact c.A.stack cx.A.stack ∧ (q ∈ cx.L.levels ∨ Tr.closeLevel q ∈ newTr c1 cx)) ?_ ?_ hrx
     · intro _ _ _
-      refine ⟨⟨[], [e], by rw [hst1]; rfl, by intro y hy; cases hy, ?_⟩, .inl hq1⟩
+      refine ⟨⟨[], [e], (by rw [hst1]; rfl), (by intro y hy; cases hy), ?_⟩, .inl hq1⟩
       intro a l hal; cases hal; rfl
     · intro ca cb hra htab ih hfr haft hhb
       have hra0 : Reach P c0 ca := reach_reach hr1 hra
@@ -339,18 +339,9 @@ theorem intact (h0 : Started c0) (hi : InitScreenOnly c0) (hP : ScreenOnly P) (h
         · exact h
         · exfalso
           have hqa := (reach_frameInv h0 hr1 (.inl ⟨[], hc1⟩) hnq1 hra).2
-          rcases frameInv_step (reach_basic h0 hra0) hqa (.inr h) hs with ⟨X, hX⟩ | h2
-          · obtain ⟨Y, hY⟩ := hfr
-            have : q ∈ markersA cb.sv.code := by
-              show q ∈ markersA cb.code; rw [hY]; exact mem_markersA_append_mainCheck Y q K
-            rw [hX] at this
-            obtain ⟨Y, hY⟩ := hfr
-            exact absurd rfl (fun _ : True => by
-              have h3 : q ∈ markersA cb.sv.code := by
-                show q ∈ markersA cb.code; rw [hY]; exact mem_markersA_append_mainCheck Y q K
-              sorry)
-          · obtain ⟨Y, hY⟩ := hfr
-            exact h2 (by show q ∈ markersA cb.code; rw [hY]; exact mem_markersA_append_mainCheck Y q K)
+          have hgone := frame_gone_step hqa h hs
+          obtain ⟨Y, hY⟩ := hfr
+          exact hgone (by show q ∈ markersA cb.code; rw [hY]; exact mem_markersA_append_mainCheck Y q K)
       have hafta : ∀ t1 t0, newTr c1 ca = t1 ++ Tr.closeLevel q :: t0 → ∀ w st, Tr.stackOp w st ∉ t1 := by
         intro t1 t0 h1 w st hm
         exact haft (newTr ca cb ++ t1) t0 (by rw [hsplit, h1, List.append_assoc]) w st (List.mem_append_right _ hm)
@@ -431,6 +422,32 @@ theorem intact (h0 : Started c0) (hi : InitScreenOnly c0) (hP : ScreenOnly P) (h
   obtain ⟨rest', _, _, _, h5⟩ := loopReturn_step hs ((mem_newTr_iff hev rfl).1 hret)
   show c3.sv.stack = c2.sv.stack
   rw [h5]
+
+theorem noOpAfterClose_spec {q : Nat} {t1 t0 : List Tr} (h : noOpAfterCloseB q (t1 ++ Tr.closeLevel q :: t0) = true) :
+    ∀ w st, Tr.stackOp w st ∉ t1 := by
+  induction t1 with
+  | nil => intro w st hm; cases hm
+  | cons t t1 ih =>
+    simp only [List.cons_append, noOpAfterCloseB, Bool.and_eq_true] at h
+    intro w st hm
+    rcases List.mem_cons.1 hm with h1 | h1
+    · subst h1
+      have h2 := h.1
+      simp [Tr.isStackOp'] at h2
+    · exact ih h.2 w st h1
+
+/-- the property-level statement -/
+theorem intact' (h0 : Started c0) (hi : InitScreenOnly c0) (hP : ScreenOnly P) (hC : ClosedSilent P)
+    (hr : Reach P c0 c) {scr : Nat} {args : Option Nat} {K0 : List Instr}
+    (hc : c.code = .pushModal scr args :: K0) (hs1 : step P c = .ok c') (hs2 : step P c' = .ok c1)
+    (hr2 : Reach P c1 c2) (ht : Trans P c2 c3) (hret : Tr.loopReturn c.L.queues.length ∈ newTr c2 c3)
+    (hn : NoErr c3) (hq : WFQuietDrain c3) (hw : WFClose c3) (hd : WFDrain c3) (hf : NoForceQuit c3)
+    (hafter : NoStackOpAfterClose c.L.queues.length (newTr c1 c2)) :
+    (∃ ins, c2.A.stack = ins ++ c.A.stack ∧ ∀ y ∈ ins, y.modal = false) ∧
+    c2.code = .mainCheck c.L.queues.length :: .modalRet ⟨c.A.nextEid, scr, args, true⟩ :: K0 ∧
+    c3.code = .restoreRun :: .modalRet ⟨c.A.nextEid, scr, args, true⟩ :: K0 ∧ c3.A.stack = c2.A.stack :=
+  intact h0 hi hP hC hr hc hs1 hs2 hr2 ht hret ⟨hn, hq, hw, hd, hf⟩
+    (fun t1 t0 h => noOpAfterClose_spec (by rw [← h]; exact hafter))
 
 end Shape
 
